@@ -29,6 +29,8 @@ def run(ctx, repo):
     RX.r_analyze_special(ctx, repo)
     RX.r_emitter_doc_reset(ctx, repo)
     RE.r_tag_suffix_nonempty(ctx, repo)
+    RX.r_fold_leading_space(ctx, repo)
+
 
 if __name__ == '__main__':
     sys.exit(report.main('C15', 'other', run))
